@@ -233,6 +233,9 @@ impl Scenario for C05 {
   fn name(&self) -> &'static str {
     "c05.des"
   }
+  fn weight(&self) -> usize {
+    5
+  }
   fn components(&self) -> (&'static [&'static str], &'static [&'static str]) {
     (
       &["ops/merge_all.rs (MergeAllOp, MergeAllOpThreads; flatten/flat_map/concat_map/concat_all)", "MultiSubscription(Threads)", "interval/RepeatTask for timed inners"],
@@ -640,12 +643,186 @@ impl Scenario for C05 {
   }
 }
 
+// ------------------------------------------------------------------- threads
+//
+// Unbounded merge_all_threads / flat_map_threads over hot inner subjects that
+// are all subscribed when the pipeline is subscribed (cold outer); every inner
+// is then driven by its own simulated thread.
+
+#[derive(Clone, Debug, Serialize, Deserialize)]
+pub struct TCase {
+  /// 0 = from_iter(inners).merge_all_threads(MAX), 1 = merge_all_threads(#inners), 2 = flat_map_threads
+  form: u8,
+  /// per inner: number of items, then 0 = nothing, 1 = complete, 2 = error
+  inners: Vec<(usize, u8)>,
+  sched: crate::threadsim::SchedSpec,
+}
+
+pub struct C05Threads;
+
+impl Scenario for C05Threads {
+  fn name(&self) -> &'static str {
+    "c05.threads"
+  }
+  fn components(&self) -> (&'static [&'static str], &'static [&'static str]) {
+    (&["merge_all_threads / flat_map_threads state cell (MutArc) with one emitting thread per inner SubjectThreads"], &["OS thread scheduling (baton)"])
+  }
+  fn generate(&self, rng: &mut Rng, _tier: Tier) -> Value {
+    use crate::threadsim::{SchedSpec, Strategy};
+    let m = rng.range(2, 3);
+    let mut err_used = false;
+    let inners = (0..m)
+      .map(|_| {
+        let t = match rng.below(6) {
+          0 => 0,
+          1 if !err_used || rng.chance(1, 3) => {
+            err_used = true;
+            2
+          }
+          _ => 1,
+        };
+        (rng.below(4), t)
+      })
+      .collect();
+    let strategy = match rng.below(3) {
+      0 => Strategy::Random,
+      1 => Strategy::Seq { den: 3 },
+      _ => Strategy::Pct { d: rng.range(1, 3) as u8, k: 40 },
+    };
+    serde_json::to_value(TCase { form: rng.below(3) as u8, inners, sched: SchedSpec::Seeded { seed: rng.next_u64(), strategy } }).unwrap()
+  }
+  fn run(&self, case: &Value) -> Result<Outcome, String> {
+    use crate::threadsim::*;
+    let case: TCase = serde_json::from_value(case.clone()).map_err(|e| e.to_string())?;
+    if case.inners.is_empty() || case.inners.len() > 4 || case.form > 2 || case.inners.iter().any(|(n, t)| *n > 6 || *t > 2) {
+      return Err("bad shape".into());
+    }
+    let shr = Shared::new();
+    let w = World::with_shared(shr.clone());
+    let log = ProbeLog::new(true);
+    let p = Probe(log.clone());
+    let m = case.inners.len();
+    let subjects: Vec<SubjectThreads<Val, E>> = (0..m).map(|_| SubjectThreads::default()).collect();
+    let sub: Box<dyn std::any::Any> = match case.form {
+      0 => Box::new(observable::from_iter(subjects.clone()).on_error_map(|_| 0).merge_all_threads(usize::MAX).actual_subscribe(p)),
+      1 => Box::new(observable::from_iter(subjects.clone()).on_error_map(|_| 0).merge_all_threads(m).actual_subscribe(p)),
+      _ => {
+        let ss = subjects.clone();
+        Box::new(observable::from_iter(0..m).on_error_map(|_| 0).flat_map_threads(move |i| ss[i].clone()).actual_subscribe(p))
+      }
+    };
+    // (inner, item, invoke, ret) / (inner, terminal kind, invoke, ret)
+    let oplog: Arc<Mutex<Vec<(usize, i64, u64, u64)>>> = Default::default();
+    let ts = TSim::new(shr.clone(), &case.sched, m, 0, 10_000);
+    let mut bodies: Vec<Body> = Vec::new();
+    for (k, (n, term)) in case.inners.iter().enumerate() {
+      let mut s = subjects[k].clone();
+      let (n, term) = (*n, *term);
+      let oplog = oplog.clone();
+      bodies.push(Box::new(move || {
+        let sh = shared();
+        for i in 0..n {
+          let item = (k as i64 + 1) * 100 + i as i64;
+          let invoke = sh.stamp();
+          s.next(Val::I(item));
+          let ret = sh.stamp();
+          oplog.lock().unwrap().push((k, item, invoke, ret));
+          harness_yield("between-items");
+        }
+        let invoke = sh.stamp();
+        match term {
+          1 => s.complete(),
+          2 => s.error(k as E + 1),
+          _ => return,
+        }
+        let ret = sh.stamp();
+        oplog.lock().unwrap().push((k, -(term as i64), invoke, ret));
+      }));
+    }
+    let rep = ts.run(bodies);
+    let site = ["merge_all_threads(MAX)", "merge_all_threads(n)", "flat_map_threads"][case.form as usize].to_string();
+    let recs = log.records();
+    let got: Vec<Ev> = recs.iter().map(|r| r.ev.clone()).collect();
+    let ops = oplog.lock().unwrap().clone();
+    let mut violation: Option<Violation> = None;
+    let mut bad = |rule: &str, detail: String| {
+      if violation.is_none() {
+        violation = Some(Violation { rule: rule.into(), site: site.clone(), detail });
+      }
+    };
+    if let Some(d) = &rep.deadlock {
+      bad("c05.deadlock", d.clone());
+    } else if rep.budget_overrun {
+      bad("c05.livelock", "step budget exhausted".into());
+    } else if let Some((t, msg)) = rep.panics.first() {
+      bad("c05.panic", format!("thread {} panicked: {}", t, msg));
+    } else if log.overlap.load(SeqCst) {
+      bad("c05.overlap", "the subscriber was entered on two threads at once".into());
+    } else if let Some(i) = grammar_violation(&got) {
+      bad("c05.grammar", format!("event #{} after terminal: [{}]", i, fmt_trace(&got)));
+    } else {
+      let items: Vec<i64> = got.iter().filter_map(|e| if let Ev::Next(Val::I(i)) = e { Some(*i) } else { None }).collect();
+      let first_err = ops.iter().filter(|o| o.1 == -2).map(|o| o.2).min();
+      for (i, x) in items.iter().enumerate() {
+        if items[..i].contains(x) {
+          bad("c05.items", format!("item {} delivered twice: [{}]", x, fmt_trace(&got)));
+        }
+        if !ops.iter().any(|o| o.1 == *x) {
+          bad("c05.items", format!("item {} was never emitted: [{}]", x, fmt_trace(&got)));
+        }
+      }
+      for k in 0..m {
+        let mine: Vec<i64> = items.iter().copied().filter(|x| x / 100 == k as i64 + 1).collect();
+        if mine.windows(2).any(|w| w[0] > w[1]) {
+          bad("c05.items", format!("inner {}'s items out of order: {:?}", k, mine));
+        }
+      }
+      // exactly once: every item whose next() returned before any inner failed
+      for o in ops.iter().filter(|o| o.1 > 0) {
+        if first_err.map_or(true, |e| o.3 < e) && !items.contains(&o.1) {
+          bad("c05.items", format!("item {} of inner {} (next returned at stamp {}) was not delivered: [{}]", o.1, o.0, o.3, fmt_trace(&got)));
+        }
+      }
+      let all_completed = case.inners.iter().all(|(_, t)| *t == 1);
+      let n_err = case.inners.iter().filter(|(_, t)| *t == 2).count();
+      match got.last() {
+        Some(Ev::Complete) if !all_completed => bad("c05.completed-early", format!("completed although not every inner completed: inners {:?} => [{}]", case.inners, fmt_trace(&got))),
+        Some(Ev::Err(_)) if n_err == 0 => bad("c05.unexpected-error", format!("[{}]", fmt_trace(&got))),
+        _ => {}
+      }
+      if all_completed && got.last() != Some(&Ev::Complete) {
+        bad("c05.not-completed", format!("the outer and all {} inners completed and every thread returned; the subscriber saw [{}]", m, fmt_trace(&got)));
+      }
+      if n_err > 0 && !matches!(got.last(), Some(Ev::Err(_))) {
+        bad("c05.unexpected-error", format!("an inner failed and every thread returned, yet no error was delivered: [{}]", fmt_trace(&got)));
+      }
+    }
+    let mut resolved = case.clone();
+    resolved.sched = SchedSpec::Explicit(rep.decisions.clone());
+    let h = hash_mix(rep.trace_hash, hash_str(&fmt_trace(&got)));
+    drop(sub);
+    drop(subjects);
+    drop(w);
+    Ok(Outcome {
+      violation,
+      trace_hash: h,
+      nontrivial: rep.multi_choice > 0,
+      sim_ns: 0,
+      steps: rep.steps,
+      faults: vec![("preemption_at_lock_point", rep.preemptions), ("lock_contention", rep.contentions)],
+      reach: vec![("try_lock_contention_observed", (rep.contentions > 0) as u64)],
+      resolved: Some(serde_json::to_value(resolved).unwrap()),
+      sample: format!("{} inners={:?} decisions={} => [{}]", site, case.inners, rep.decisions.len(), fmt_trace(&got)),
+    })
+  }
+}
+
 pub fn check_def() -> PropertyCheck {
   PropertyCheck {
     id: "C05",
-    scenarios: vec![Box::new(C05)],
+    scenarios: vec![Box::new(C05), Box::new(C05Threads)],
     runs: (300_000, 30_000_000),
-    rule: "case = operator (merge_all(n in 1..k+1 | unbounded), concat_all, flatten, flat_map, concat_map; local and _threads) x 1-4 inner observables (synchronous with 0-3 items / hot / interval.take on the simulated executor) x script of outer next/complete/error, inner next/complete/error, run ready task #k, jump to next deadline, followed by a fault-free quiescence phase; non-trivial = >=2 inners handed to the operator; distinct = distinct (case, behaviour) hashes",
+    rule: "case = operator (merge_all(n in 1..k+1 | unbounded), concat_all, flatten, flat_map, concat_map; local and _threads) x 1-4 inner observables (synchronous with 0-3 items / hot / interval.take on the simulated executor) x script of outer next/complete/error, inner next/complete/error, run ready task #k, jump to next deadline, followed by a fault-free quiescence phase; non-trivial = >=2 inners handed to the operator; distinct = distinct (case, behaviour) hashes; thread case = unbounded merge_all_threads / flat_map_threads over 2-3 hot inner subjects, each driven by its own simulated thread (<=3 items then complete / error / nothing) under a seeded lock-level schedule: exactly once, per-inner order, completion iff every inner completed, one error",
     assumptions: vec!["items pushed into a hot inner while it is queued (not yet subscribed) are legitimately lost and not expected"],
   }
 }
